@@ -345,7 +345,7 @@ def lap_case(chk, drv, desc, L):
 def gen_noise_case(rng, idx):
     r = lambda: fs(Fraction(rng.randint(1, 6), rng.randint(1, 3)))   # noqa
     amp = lambda: fs(Fraction(rng.randint(1, 6), rng.randint(1, 3)))   # noqa
-    tmpl = idx % 3
+    tmpl = [0, 1, 0, 2][idx % 4]
     if tmpl == 0:
         # two (three) voltage noise sources from nodes to ground: with one killed its node is grounded
         a, b = rng.choice([('1', '2'), ('2', '1')])
@@ -363,7 +363,7 @@ def gen_noise_case(rng, idx):
         plain.append('R4 4 0 %s' % r())
     if rng.random() < 0.5:
         places = [(ty, b_, a_) for (ty, a_, b_) in places]
-    share = rng.random() < 0.75
+    share = tmpl == 0 or rng.random() < 0.75
     ids = []
     for i_ in range(len(places)):
         if share and i_ < 2:
@@ -653,3 +653,190 @@ def nalg_case(chk, drv, desc, L):
     else:
         chk.count('model', 'nalg-outside-model')
     return ncex
+
+
+# --------------------------------------------------------------------------------------------------------- GROUPS
+
+FORM_OF = {'ack': 'kwac', 'accx': 'kwac', 'cs': 'texpr', 'ph': 'texpr', 'mix': 'texpr', 'exp': 'texpr', 'dc': 'kwdc', 'step': 'kwstep'}
+
+
+def gen_groups_case(rng, idx):
+    r = lambda: fs(Fraction(rng.randint(1, 6), rng.randint(1, 3)))   # noqa
+    nsrc = rng.randint(1, 4)
+    nodes = ['1', '2', '3', '4']
+    lines = []      # (lcapy text, model text)
+    names = []
+    vnames = []
+    for i in range(nsrc):
+        ty = rng.choice('VVI')
+        nm = '%s%d' % (ty, i + 1)
+        a, b = rng.sample(['0'] + nodes[:3], 2)
+        kd = rng.choice(['ack', 'accx', 'cs', 'ph', 'mix', 'exp', 'dc', 'step', 'dcx', 's', 'noise', 'noise'])
+        if kd == 'noise':
+            nid = rng.choice(['nx', 'ny', None])
+            amp = fs(Fraction(rng.randint(1, 5), rng.randint(1, 2)))
+            nm = '%sn%d' % (ty, i + 1)
+            lines.append(('%s %s %s noise %s%s' % (nm, a, b, amp, (' ' + nid) if nid else ''),
+                          '%s %s %s noise:%s' % (nm, a, b, nid or ('auto-' + nm))))
+        elif kd == 'dcx':
+            v = Fraction(rng.randint(1, 9), rng.randint(1, 3))
+            lines.append(('%s %s %s {%s}' % (nm, a, b, sx(v)), '%s %s %s texpr dc:%s' % (nm, a, b, fstr(v))))
+        elif kd == 's':
+            v, p = rng.randint(1, 5), rng.randint(1, 3)
+            lines.append(('%s %s %s s {%d/(s + %d)}' % (nm, a, b, v, p), '%s %s %s kws ep:%d:0:%d' % (nm, a, b, v, -p)))
+        else:
+            g = gen_value(rng, kd)
+            lines.append(('%s %s %s %s' % (nm, a, b, g['args']), '%s %s %s %s %s' % (nm, a, b, FORM_OF[kd], ' '.join(g['tokens']))))
+        names.append(nm)
+        if ty == 'V' and kd != 'noise':
+            vnames.append(nm)
+    shape = idx % 4          # 0: resistive, 1: reactive without ICs, 2: with ICs, 3: ICs that are zero / mixed
+    npass = rng.randint(2, 4)
+    for i in range(npass):
+        a, b = rng.sample(['0'] + nodes, 2)
+        l = 'R%d %s %s %s' % (i + 1, a, b, r())
+        lines.append((l, l))
+    if shape >= 1:
+        for i in range(rng.randint(1, 2)):
+            ty = rng.choice('CL')
+            a, b = rng.sample(['0'] + nodes, 2)
+            ic = ''
+            if shape == 2 or (shape == 3 and rng.random() < 0.7):
+                ic = ' ' + (fs(Fraction(rng.randint(1, 5), rng.randint(1, 2)) * rng.choice([1, -1])) if shape == 2 or rng.random() < 0.4 else '0')
+            l = '%s%d %s %s %s%s' % (ty, i + 1, a, b, r(), ic)
+            lines.append((l, l))
+    if vnames and rng.random() < 0.5:
+        ty = rng.choice('HF')
+        a, b = rng.sample(['0'] + nodes, 2)
+        l = '%s1 %s %s %s %s' % (ty, a, b, rng.choice(vnames), r())
+        lines.append((l, l))
+    if rng.random() < 0.3:
+        a, b = rng.sample(['0'] + nodes, 2)
+        c, d = rng.sample(['0'] + nodes, 2)
+        l = '%s1 %s %s %s %s %s' % (rng.choice('EG'), a, b, c, d, r())
+        lines.append((l, l))
+    order = list(range(len(lines)))
+    rng.shuffle(order)
+    lines = [lines[i] for i in order]
+    kills = []
+    pool = names + ['ICs']
+    for _ in range(3):
+        k = rng.randint(0, min(2, len(pool)))
+        kills.append({'mode': rng.choice(['kill', 'except']), 'names': rng.sample(pool, k)})
+    return {'stream': 'groups', 'lcapy': [l[0] for l in lines], 'model': [l[1] for l in lines], 'kills': kills, 'shape': shape,
+            'sub': idx % 3 == 0}
+
+
+def groups_case(chk, drv, desc, L):
+    lcapy, S = L['lcapy'], L['S']
+    chk.count('groups', 'shape-%d' % desc['shape'])
+    rep = drv.ask1('grp.run || ' + ' || '.join(desc['model']))
+    if not rep.startswith('groups '):
+        chk.count('model', 'groups:' + rep[:30])
+        return 0
+    gtxt, ftxt = rep[len('groups '):].split(' flags ')
+    mg = {}
+    for it in [x for x in gtxt.split(';') if x]:
+        k, v = it.split('=')
+        mg[k] = [x for x in v.split(',') if x]
+    mf = dict(x.split('=', 1) for x in ftxt.split())
+    chk.case(('groups', tuple(desc['lcapy'])), True)
+    try:
+        with common.time_limit(60):
+            cct = lcapy.Circuit('\n'.join(desc['lcapy']))
+            try:
+                a = cct.analysis
+            except ValueError as e:
+                chk.count('lcapy-error', 'groups:' + str(e)[:40])
+                return 0
+            import warnings
+            with warnings.catch_warnings():
+                warnings.simplefilter('ignore')
+                lg_raw = cct._analysis_groups()
+                # building the sub-netlists is slow; their keys are the keys of the groups by construction
+                subkeys = list(cct.sub.keys()) if desc.get('sub', True) else list(lg_raw.keys())
+    except (Exception, common.TimeLimit) as e:   # noqa
+        chk.count('lcapy-error', 'groups:' + type(e).__name__ + ':' + str(e)[:30])
+        return 0
+    auto = {}
+    for lt in desc['lcapy']:
+        tk = lt.split()
+        if len(tk) == 5 and tk[3] == 'noise':
+            auto[tk[0]] = True
+
+    def ckey(k, srcs):
+        if isinstance(k, str):
+            if k in ('dc', 'transient', 'ivp', 'time'):
+                return k
+            if k[0] == 'n':
+                if len(srcs) == 1 and srcs[0] in auto:
+                    return 'noise:auto-' + srcs[0]
+                return 'noise:' + k
+            return k
+        g = common.gauss_rational(S.sympify(k))
+        return 'ac:' + (fstr(g[0]) if g else str(k))
+    lg = {}
+    for k, v in lg_raw.items():
+        lg[ckey(k, list(v))] = list(v)
+    norm = lambda d: {k: (sorted(v) if k in ('ivp', 'time') else v) for k, v in d.items()}   # noqa
+    chk.coverage['correspondence']['compared'] += 1
+    chk.count('model', 'groups-compared')
+    for k in lg:
+        chk.count('groups-key', k.split(':')[0])
+    bad = None
+    if norm(lg) != norm(mg):
+        bad = ('_analysis_groups', norm(mg), norm(lg))
+    elif len(subkeys) != len(lg_raw):
+        bad = ('cct.sub keys', sorted(mg), [str(x) for x in subkeys])
+    else:
+        lf = {'has_ic': a.has_ic, 'zeroic': a.zeroic, 'has_s': a.has_s, 'has_ac': a.has_ac, 'has_dc': a.has_dc, 'has_transient': a.has_transient,
+              'ac_count': a.ac_count, 'dc_count': a.dc_count, 'causal': a.causal, 'reactive': a.reactive, 'ac': a.ac, 'dc': a.dc,
+              'time_domain': a.time_domain, 'ivp': a.ivp, 'independent_sources': a.independent_sources, 'dependent_sources': a.dependent_sources,
+              'control_sources': a.control_sources, 'reactances': a.reactances, 'ics': a.ics}
+        try:
+            if list(cct.sources) != list(a.dependent_sources) + list(a.independent_sources):
+                bad = ('cct.sources', mf.get('dependent_sources', '') + ' + ' + mf.get('independent_sources', ''), str(cct.sources))
+        except Exception as e:   # noqa
+            chk.count('lcapy-error', 'sources:' + type(e).__name__)
+        for k, v in lf.items():
+            if isinstance(v, bool):
+                v = '1' if v else '0'
+            elif isinstance(v, list):
+                v = ','.join(v)
+            else:
+                v = str(v)
+            if mf.get(k, '') != v:
+                bad = ('analysis.' + k, mf.get(k), v)
+                break
+    if bad:
+        chk.coverage['correspondence']['disagreements'] += 1
+        L['disagreements'].append({'stream': 'groups', 'netlist': desc['lcapy'], 'what': bad[0], 'model': str(bad[1]), 'lcapy': str(bad[2])})
+    # kill / kill_except
+    for kl in desc['kills']:
+        try:
+            new = cct.kill(*kl['names']) if kl['mode'] == 'kill' else cct.kill_except(*kl['names'])
+        except Exception as e:   # noqa
+            chk.count('lcapy-error', 'kill:' + type(e).__name__)
+            continue
+        got = []
+        orig = {lt.split()[0]: lt.split() for lt in desc['lcapy']}
+        for lt in str(new).strip().split('\n'):
+            tk = lt.split(';')[0].split()
+            if tk[0] == 'W':
+                got.append('W:%s:%s' % (tk[1], tk[2]))
+            elif tk[0] == 'O':
+                got.append('O:%s:%s' % (tk[1], tk[2]))
+            elif tk[0][0] in 'VI' and tk[0] in orig and tk[-1] == '0' and orig[tk[0]][-1] != '0' and 'noise' not in tk:
+                got.append('zeroed:%s:%s:%s' % (tk[0], tk[1], tk[2]))
+            elif tk[0][0] in 'CL' and tk[0] in orig and len(tk) < len(orig[tk[0]]):
+                got.append('noic:' + tk[0])
+            else:
+                got.append('kept:' + tk[0])
+        mrep = drv.ask1('grp.kill %s %s || %s' % (kl['mode'], ','.join(kl['names']) or '-', ' || '.join(desc['model'])))
+        chk.coverage['correspondence']['compared'] += 1
+        chk.count('model', 'kill-compared')
+        if mrep.split()[1:] != got:
+            chk.coverage['correspondence']['disagreements'] += 1
+            L['disagreements'].append({'stream': 'groups', 'netlist': desc['lcapy'], 'what': '%s %s' % (kl['mode'], kl['names']),
+                                       'model': mrep, 'lcapy': ' '.join(got)})
+    return 0
